@@ -29,6 +29,8 @@ class C01(ProgCheck):
         ("lattice", 30, {"mix": gen.MIX_LATTICE, "nops": (6, 20), "flavours": ["ser", "par", "par", "par-asan"], "thr": [64, 64, 16],
                          "seed_ops": ["lbox:0,0,0,1,1,1", "lbox:1,0,0,0,0,0"]}),
         ("general", 30, {"mix": gen.MIX_GENERAL, "nops": (8, 24), "flavours": ["ser", "par", "par", "par-asan"], "thr": [64, 64, 16]}),
+        ("constructors", 10, {"mix": dict(gen.MIX_GENERAL, ctor=40, refine=4, warp=4, decompose=4, simplify=4, levelset=0, minksum=0, minkdiff=0),
+                              "nops": (4, 12), "flavours": ["ser", "ser", "par"], "thr": [64]}),
         ("lazy", 8, {"mix": gen.MIX_LATTICE, "nops": (6, 16), "flavours": ["ser", "par"], "thr": [64], "extra_args": {"lazy": 1},
                      "seed_ops": ["lbox:0,0,0,1,1,1", "lbox:1,1,0,0,0,0"]}),
         ("big", 3, {"mix": MIX_BIG, "nops": (5, 8), "size": "big", "flavours": ["par"], "thr": [1], "seed_ops": BIG, "timeout": 600, "min_time_left": 90,
